@@ -1413,6 +1413,106 @@ def add_prefix_readers(pack):
     c.replay_without_model = True
 
 
+    # ---- f-strings: #f "...{expr}..." - the same classification, and only real forms are spliced in
+    def fstr_setup(eng, st):
+        strlit_setup(eng, st)  # (psetup, the string helpers and _read_unicode_escape_seq by contract)
+        bytes_like_end(eng, st)
+
+        def sub_reader(e, s, args, k):
+            # _read_next by contract: at the end of the text the eof value and no movement; otherwise a form, a comment
+            # marker, or a syntax error of either kind
+            ctx_ = e.lift(args[0], s)
+            r = fld(s, ctx_, "_reader")
+            p = pos(s, r)
+            s_end = s.copy()
+            s_end.assume(CH(p) == V.mk_str(""))
+            if e.feasible(s_end):
+                s_end.ghost["spliced"] = list(s_end.ghost.get("spliced", [])) + [fld(s_end, ctx_, "_eof")]
+                yield s_end, SV(fld(s_end, ctx_, "_eof"))
+            s.assume(CH(p) != V.mk_str(""))
+            s.ghost["n_read"] = z3.Int(V.fresh_name("n_read"))
+            e.havoc_heap(s, ["_idx"])
+            for nm in ("dqv", "dqn"):
+                if nm in s.aux:
+                    s.aux[nm] = z3.Const(V.fresh_name(nm), s.aux[nm].sort())
+            s.assume(WF(e, s, r), pos(s, r) > p)
+            s_c, s2, s3 = s.copy(), s.copy(), s.copy()
+            res = V.fresh_val("expr")
+            s.assume(e.external_ref_fact(s, res), res != fld(s, ctx_, "_eof"), res != e.lift(rd.COMMENT, s))
+            s.ghost["spliced"] = list(s.ghost.get("spliced", [])) + [res]
+            yield s, SV(res)
+            s_c.ghost["spliced"] = list(s_c.ghost.get("spliced", [])) + [e.lift(rd.COMMENT, s_c)]
+            yield s_c, rd.COMMENT
+            s2.ghost["inner_exc"] = "eof"
+            yield s2, Raise(Exc(rd.UnexpectedEOFError, ("Unexpected EOF in a nested form",), note="the text ended inside the expression"))
+            s3.ghost["inner_exc"] = "syntax"
+            yield s3, Raise(Exc(rd.SyntaxError, ("malformed expression",), note="malformed expression"))
+
+        eng.models[id(rd._read_next)] = Model("_read_next (by contract)", sub_reader)
+
+        def owed(e, s, args, k):
+            # _read_owed_form by contract (its body is three lines on top of _read_next_consuming_comment, C16 prefix
+            # readers): a real form - never the eof value, never a comment - or a syntax error, the incomplete kind when
+            # the text ended first
+            ctx_ = e.lift(args[0], s)
+            r = fld(s, ctx_, "_reader")
+            p = pos(s, r)
+            s.ghost["n_read"] = z3.Int(V.fresh_name("n_read"))
+            e.havoc_heap(s, ["_idx"])
+            for nm in ("dqv", "dqn"):
+                if nm in s.aux:
+                    s.aux[nm] = z3.Const(V.fresh_name(nm), s.aux[nm].sort())
+            s.assume(WF(e, s, r), pos(s, r) >= p)
+            s2, s3 = s.copy(), s.copy()
+            res = V.fresh_val("expr")
+            s.assume(e.external_ref_fact(s, res), res != fld(s, ctx_, "_eof"), res != e.lift(rd.COMMENT, s), pos(s, r) > p)
+            s.ghost["spliced"] = list(s.ghost.get("spliced", [])) + [res]
+            yield s, SV(res)
+            s2.ghost["inner_exc"] = "eof"
+            yield s2, Raise(Exc(rd.UnexpectedEOFError, ("Unexpected EOF after f-string expression",), note="the text ended before the expression"))
+            s3.ghost["inner_exc"] = "syntax"
+            yield s3, Raise(Exc(rd.SyntaxError, ("malformed expression",), note="malformed expression"))
+
+        eng.models[id(rd._read_owed_form)] = Model("_read_owed_form (by contract)", owed)
+        import builtins as _b
+
+        eng.models[id(_b.all)] = Model("all(<generator>) (either answer)", lambda e, s, a, k: iter([(s, SV(V.mk_bool(z3.Const(V.fresh_name("all_strings"), z3.BoolSort()))))]))
+        eng.models[id(llist__.list)] = Model("llist.list (some list)", lambda e, s, a, k: iter([(s, SV(V.fresh_val("str_call_form")))]))
+
+    from basilisp.lang import list as llist__
+
+    def bytes_like_end(eng, st):
+        st.assume(END >= 0, forall_k((CH(k) == V.mk_str("")) == (k >= END), CH(k)))
+
+    c = pack.contract("basilisp.lang.reader:_read_fstr")
+    c.param("ctx", OBJ(RC))
+    c.setup(fstr_setup)
+    c.requires("the stream reader is well-formed", lambda a: WF(a.eng, a.pre.st, reader_of(a)))
+    c.raises(rd.SyntaxError)
+
+    def fstr_inv(ctx):
+        st, pre = ctx.st, ctx.entry.st
+        r = fld(pre, ctx["ctx"], "_reader")
+        return [
+            ("the stream reader stays well-formed and is still the context's reader", z3.And(WF(ctx.eng, st, r), fld(st, ctx["ctx"], "_reader") == r, ctx["reader"] == r)),
+            ("the cursor has not moved back", pos(st, r) >= pos(pre, r)),
+            ("the eof value is untouched", fld(st, ctx["ctx"], "_eof") == fld(pre, ctx["ctx"], "_eof")),
+        ]
+
+    c.loop(0, invariant=fstr_inv, frame=["_idx"], lists=True, ghost=("n_read",), aux=("dqv", "dqn"))
+    c.ensures_on_raise("an f-string cut short by the end of the text - inside the string, after a backslash, inside or right after an {expression} - is incomplete "
+                       "(UnexpectedEOFError); anything else wrong with it is malformed", own_error_kind)
+
+    def fstr_post(a):
+        eofv = fld(a.pre.st, a.ctx, "_eof")
+        sp = a.post.st.ghost.get("spliced", [])
+        return z3.And(*[z3.And(v != eofv, v != a.eng.lift(rd.COMMENT, a.post.st)) for v in sp]) if sp else z3.BoolVal(True)
+
+    c.ensures("every {expression} spliced into the result is a real form: never the eof value, never a comment marker", fstr_post)
+    c.replay(lambda m, ctx, ob: STRLIT_REPLAY)
+    c.replay_without_model = True
+
+
 STRLIT_REPLAY = r'''
 from basilisp.lang import reader
 bad = []
@@ -1429,12 +1529,20 @@ def kind(text):
 for text, want in (('"abc', "incomplete"), ('"ab\\', "incomplete"), ('"ab\\u12', "incomplete"), ('"ab\\u', "incomplete"), ('"ab\\q"', "malformed"), ('"\\u12 "', "malformed"),
                    ('"\\uFFFFFFFF"', "malformed"), ('"\\u00110000"', "malformed"), ('"\\u0041"', "ok"), ('"a\\nb"', "ok"),
                    ("#:a", "incomplete"), ("#:a ", "incomplete"), ("#:a 1", "malformed"), ("#:a{:b 1}", "ok"), ("#:a {:b 1}", "ok"), ("#:a{:b", "incomplete"),
+                   ('#f "ab', "incomplete"), ('#f "a\\', "incomplete"), ('#f "a{', "incomplete"), ('#f "a{b', "incomplete"), ('#f "a{b ', "incomplete"), ('#f "a{(b', "incomplete"),
+                   ('#f "a{b c}"', "malformed"), ('#f "a{b}c"', "ok"), ('#f "a\\{b}"', "ok"), ('#f "{#_a b}"', "ok"),
                    ('#b', "incomplete"), ('#b ', "incomplete"), ('#b "ab', "incomplete"), ('#b "a\\', "incomplete"), ('#b "\\x', "incomplete"), ('#b "\\x4', "incomplete"),
                    ('#b "\\xzz"', "malformed"), ('#b "\u00e9"', "malformed"), ('#b 5', "malformed"), ('#b "a\\x41\\n"', "ok"),
                    ("\\", "incomplete"), ("\\a", "ok"), ("\\newline", "ok"), ("#inst 5", "malformed"), ("#inst \"x\"", "malformed"), ("#inst \"2020-01-01T00:00:00Z\"", "ok")):
     got = kind(text)
     if got != want:
         bad.append("%r is %s, expected %s" % (text, got, want))
+try:
+    leak = list(reader.read_str('#f "{#_a b}"'))
+    if "Comment" in repr(leak):
+        bad.append("a comment object is spliced into the f-string form: %r" % (leak,))
+except Exception as e:
+    pass
 for line in bad[:10]:
     print(line)
 print("REPRODUCED" if bad else "not reproduced")
